@@ -19,10 +19,11 @@ import (
 
 // Link replaces one regular member by a link to a moved copy.
 type Link struct {
-	Pick  int    `json:"pick"`  // index into the regular members (mod n)
-	Hard  bool   `json:"hard"`  // hard link (Linkname relative to the archive root) instead of a symlink
-	Style string `json:"style"` // where the copy goes: root (moved/<base>) | sibling (<dir>/<base>.data) | updir (<parent>/moved/<base>)
-	Chain bool   `json:"chain"` // symlink -> symlink (alias/<base>) -> moved/<base>; root style only
+	Pick  int    `json:"pick"`           // index into the regular members (mod n)
+	Hard  bool   `json:"hard"`           // hard link (Linkname relative to the archive root) instead of a symlink
+	Style string `json:"style"`          // where the copy goes: root (moved/<base>) | sibling (<dir>/<base>.data) | updir (<parent>/moved/<base>)
+	Chain bool   `json:"chain"`          // symlink -> symlink (alias/<base>) -> moved/<base>; root style only
+	Hops  int    `json:"hops,omitempty"` // Chain: further intermediate symlinks (alias2/<base>, ...)
 }
 
 // Multi turns the archive into a two-image archive (a small decoy image is added).
@@ -317,7 +318,18 @@ func (v Variant) apply(src []tarEntry) ([]tarEntry, error) {
 			}
 			addDirs(alias)
 			have[alias] = true
-			es = append(es, tarEntry{Name: alias, Type: tar.TypeSymlink, Link: "../moved/" + base})
+			next := "../moved/" + base
+			for h := l.Hops; h > 0; h-- {
+				an := path.Join(fmt.Sprintf("alias%d", h+1), base)
+				if have[an] {
+					continue
+				}
+				addDirs(an)
+				have[an] = true
+				es = append(es, tarEntry{Name: an, Type: tar.TypeSymlink, Link: next})
+				next = "../" + an
+			}
+			es = append(es, tarEntry{Name: alias, Type: tar.TypeSymlink, Link: next})
 			es[i] = tarEntry{Name: name, Type: tar.TypeSymlink, Link: strings.Repeat("../", depth) + "alias/" + base}
 		default:
 			es[i] = tarEntry{Name: name, Type: tar.TypeSymlink, Link: symTarget}
@@ -383,4 +395,38 @@ func (v Variant) apply(src []tarEntry) ([]tarEntry, error) {
 		}
 	}
 	return es, nil
+}
+
+// linkDepth returns the longest chain of links (symlink targets resolved
+// relative to the link's directory, hard link targets relative to the root)
+// that ends at a regular member.
+func linkDepth(es []tarEntry) int {
+	typ := map[string]byte{}
+	tgt := map[string]string{}
+	for _, e := range es {
+		n := e.clean()
+		typ[n] = e.Type
+		switch e.Type {
+		case tar.TypeSymlink:
+			tgt[n] = path.Join(path.Dir(n), e.Link)
+		case tar.TypeLink:
+			tgt[n] = path.Clean(e.Link)
+		}
+	}
+	max := 0
+	for n := range tgt {
+		d, cur := 0, n
+		for d < 16 {
+			t, isLink := tgt[cur]
+			if !isLink {
+				break
+			}
+			d++
+			cur = t
+		}
+		if typ[cur] == tar.TypeReg && d > max {
+			max = d
+		}
+	}
+	return max
 }
